@@ -27,8 +27,13 @@ var (
 	hookCounts vp.HookCounts
 )
 
+var c09StreamDelay atomic.Int32 // >0 while a close-race is in progress: widen the window inside the stream's send pump
+
 func c09Hook(name string, id uint32) {
 	hookCounts.Inc(name)
+	if name == "grpcbroker.stream.sending" && c09StreamDelay.Load() > 0 {
+		time.Sleep(2 * time.Millisecond)
+	}
 	v, ok := lineups.Load(id)
 	if !ok {
 		return
@@ -229,8 +234,51 @@ func TestC09(t *testing.T) {
 			}
 			e.Ret("h", "fresh", f)
 		}
+		end := spec.C09End{}
+		var stormDone chan struct{}
+		var stuck atomic.Int32
+		if p.CloseRace && pr.kind != "mux" {
+			// listeners being announced on both sides at the moment the client is closed: every one of
+			// these calls has to return
+			c09StreamDelay.Add(1)
+			stormDone = make(chan struct{})
+			var wg sync.WaitGroup
+			for g := 0; g < 8; g++ {
+				wg.Add(1)
+				stuck.Add(1)
+				b := pr.hostGRPC
+				if g%2 == 1 {
+					b = pr.plugGRPC
+				}
+				go func() {
+					defer wg.Done()
+					defer stuck.Add(-1)
+					for i := 0; i < 5000; i++ {
+						ln, err := b.Accept(nextID())
+						if err != nil {
+							return
+						}
+						ln.Close()
+					}
+				}()
+			}
+			go func() { wg.Wait(); close(stormDone) }()
+			time.Sleep(time.Duration(5+c.ID%40) * time.Millisecond)
+			end.CloseRaced = true
+		}
 		ok, _, _ := within(brokerH, pr.close)
-		e.Obs("end", spec.C09End{ClosedOK: ok})
+		end.ClosedOK = ok
+		if stormDone != nil {
+			select {
+			case <-stormDone:
+			case <-time.After(brokerH):
+				_, _, dump := within(time.Millisecond, func() { time.Sleep(time.Second) })
+				end.StormDump = trunc(dump, 4000)
+			}
+			end.StormStuck = int(stuck.Load())
+			c09StreamDelay.Add(-1)
+		}
+		e.Obs("end", end)
 	})
 	// every pair is closed: no broker goroutine may remain
 	t0 := time.Now()
